@@ -39,14 +39,25 @@ package policer
 
 //@ pure func requiredCopies(t int32, n uint32, s uint32) uint32 = ite(t == 3 || t == 4, n, s)
 
+// ... or by a node the pass already knows as a holder from another node list of the same object
+// (the pass's node cache: a holder mark there needs a header read or a reported replication, see
+// above) - knownHolders counts those; a rule whose list shares nodes with an earlier one is
+// satisfied by the same copies, and the policer must see that (or it replicates for ever).
+//@ ghost field knownHolders(x int) uint32
+//@ callrule c26_known_holder_counts in (*Policer).processNodes
+//@   property C26 C27
+//@   callee (*policer.nodeCache).processStatus
+//@   assigns knownHolders
+//@   defines knownHolders(0) == old(knownHolders(0)) + ite(result == 0, 1, 0)
 //@ func (*Policer).processNodes
 //@   property C26
 //@   mode bv
-//@   valid plc != nil && confirmed(0) == 0 && len(nodes) < 4294967296 && !ctxCancelSeen(0)
+//@   valid plc != nil && confirmed(0) == 0 && knownHolders(0) == 0 && len(nodes) < 4294967296 && !ctxCancelSeen(0)
 //@   loop 1 invariant !ctxCancelSeen(0)
-//@   loop 1 invariant 0 <= uncheckedCopies && wide(shortage) + wide(confirmed(0)) + wide(uncheckedCopies) <= wide(requiredCopies(int32(old(plc.object.Type)), uint32(len(nodes)), old(shortage)))
-//@   loop 1 invariant !plc.needLocalCopy ==> wide(shortage) + wide(confirmed(0)) + wide(uncheckedCopies) == wide(requiredCopies(int32(old(plc.object.Type)), uint32(len(nodes)), old(shortage)))
-//@   ensures [local_copy_released_only_with_enough_confirmed_holders] !ctxCancelSeen(0) && !plc.needLocalCopy && shortage == 0 ==> wide(confirmed(0)) + wide(uncheckedCopies) == wide(requiredCopies(int32(old(plc.object.Type)), uint32(len(nodes)), old(shortage)))
+//@   loop 1 invariant 0 <= uncheckedCopies && wide(shortage) + wide(confirmed(0)) + wide(knownHolders(0)) + wide(uncheckedCopies) <= wide(requiredCopies(int32(old(plc.object.Type)), uint32(len(nodes)), old(shortage)))
+//@   loop 1 invariant !plc.needLocalCopy ==> wide(shortage) + wide(confirmed(0)) + wide(knownHolders(0)) + wide(uncheckedCopies) == wide(requiredCopies(int32(old(plc.object.Type)), uint32(len(nodes)), old(shortage)))
+//@   loop 1 iteration [holder_known_to_the_pass_covers_a_unit_of_this_rule] knownHolders(0) != old(knownHolders(0)) ==> wide(athead(shortage)) == wide(shortage) + 1
+//@   ensures [local_copy_released_only_with_enough_confirmed_holders] !ctxCancelSeen(0) && !plc.needLocalCopy && shortage == 0 ==> wide(confirmed(0)) + wide(knownHolders(0)) + wide(uncheckedCopies) == wide(requiredCopies(int32(old(plc.object.Type)), uint32(len(nodes)), old(shortage)))
 //@   ensures [copies_on_maintenance_nodes_keep_the_local_copy] !ctxCancelSeen(0) && !plc.needLocalCopy && shortage == 0 ==> uncheckedCopies == 0
 
 // ---- C26 (decision): the local copy is dropped only when no rule asked to keep it.
@@ -152,6 +163,7 @@ package policer
 //@   defines cachedNodeStatus(0) == result
 //@ func (*Policer).processNodes
 //@   property C27
+//@   loop 1 iteration [holder_known_to_the_pass_covers_a_unit_of_this_rule] knownHolders(0) != old(knownHolders(0)) ==> wide(athead(shortage)) == wide(shortage) + 1
 //@   loop 1 iteration [known_holder_is_not_offered_as_a_candidate] cachedNodeStatus(0) == 0 ==> len(candidates) == old(len(candidates))
 
 // ---- C47 (container data is discarded only when the container is gone) / C26: the policer
